@@ -230,18 +230,56 @@ pub fn eval_reader(toks: &[&str]) -> String {
         Some(b) => b,
         None => return "bad-request".into(),
     };
-    let g = Guarded::new(&bytes, toks.len() % 2 == 0);
+    run_history(&bytes, &toks[2..], Vec::new(), toks.len() % 2 == 0)
+}
+
+/// `xmark <hexA> <hexB> <op>…`: the markers of message A (one sequential pass) are used on a reader
+/// over message B — "markers obtained from a different message".
+pub fn eval_xmark(toks: &[&str]) -> String {
+    if toks.len() < 3 {
+        return "bad-request".into();
+    }
+    let (a, b) = match (from_hex(toks[1]), from_hex(toks[2])) {
+        (Some(a), Some(b)) => (a, b),
+        _ => return "bad-request".into(),
+    };
+    let mut markers: Vec<RecordMarker> = Vec::new();
+    if let Ok(mut ra) = MessageReader::new(&a) {
+        if ra.header().is_ok() && ra.skip_questions().is_ok() {
+            while let Ok(m) = ra.record_marker() {
+                let ok = ra.skip_record_data(&m).is_ok();
+                markers.push(m);
+                if !ok {
+                    break;
+                }
+            }
+        }
+    }
+    run_history(&b, &toks[3..], markers, toks.len() % 2 == 0)
+}
+
+fn run_history(bytes: &[u8], ops: &[&str], initial_markers: Vec<RecordMarker>, tail: bool) -> String {
+    let g = Guarded::new(bytes, tail);
     let buf = g.as_slice();
     let mut mr = match MessageReader::new(buf) {
         Ok(m) => m,
         Err(e) => return format!("err {}", show_err(&e)),
     };
-    let mut markers: Vec<RecordMarker> = Vec::new();
+    let mut markers: Vec<RecordMarker> = initial_markers;
+    // the marker returned by the last successful G1 call that has not been consumed by a G2 call yet:
+    // `sk`, `db`, `dt:T`, `op` are issued only then (the documented header/data pairing)
+    let mut pending: Option<RecordMarker> = None;
     let mut outs: Vec<String> = Vec::new();
-    for op in &toks[2..] {
+    for op in ops {
         let parts: Vec<&str> = op.split(':').collect();
         let res = catch_unwind(AssertUnwindSafe(|| -> String {
-            let last = markers.last().cloned();
+            let is_g2 = matches!(parts[0], "sk" | "db" | "dt" | "op");
+            let is_g1 = matches!(parts[0], "mk" | "hr" | "hh" | "hi");
+            let last = if is_g2 { pending.take() } else { None };
+            if is_g1 || matches!(parts[0], "seek" | "hd" | "q" | "qr" | "tq" | "tqr" | "sq" | "skx" | "dbx" | "dtx" | "opx") {
+                // anything that moves the reader ends a pending pair
+                pending = None;
+            }
             match parts.as_slice() {
                 ["hd"] => show_e(&mr.header(), |h| {
                     format!(
@@ -271,6 +309,7 @@ pub fn eval_reader(toks: &[&str]) -> String {
                     let r = mr.record_marker();
                     if let Ok(m) = &r {
                         markers.push(m.clone());
+                        pending = Some(m.clone());
                     }
                     show_e(&r, show_marker)
                 }
@@ -278,6 +317,7 @@ pub fn eval_reader(toks: &[&str]) -> String {
                     let r = mr.record_header_ref();
                     if let Ok(h) = &r {
                         markers.push(h.marker().clone());
+                        pending = Some(h.marker().clone());
                     }
                     show_e(&r, |h| format!("{}:{}", show_marker(h.marker()), show_name_ref(h.name())))
                 }
@@ -285,6 +325,7 @@ pub fn eval_reader(toks: &[&str]) -> String {
                     let r = mr.record_header::<Name>();
                     if let Ok(h) = &r {
                         markers.push(h.marker().clone());
+                        pending = Some(h.marker().clone());
                     }
                     show_e(&r, |h| format!("{}:{}", show_marker(h.marker()), nhex(h.name())))
                 }
@@ -292,6 +333,7 @@ pub fn eval_reader(toks: &[&str]) -> String {
                     let r = mr.record_header::<InlineName>();
                     if let Ok(h) = &r {
                         markers.push(h.marker().clone());
+                        pending = Some(h.marker().clone());
                     }
                     show_e(&r, |h| {
                         format!("{}:{}", show_marker(h.marker()), to_hex(h.name().as_str().as_bytes()))
@@ -314,6 +356,7 @@ pub fn eval_reader(toks: &[&str]) -> String {
                     None => "nomarker".into(),
                 },
                 ["op"] => match &last {
+                    Some(m) if m.rtype().value() != 41 => "notopt".into(),
                     Some(m) => show_e(&mr.opt_record(m), |o| {
                         format!(
                             "O:{}:{}:{}:{}",
@@ -357,7 +400,11 @@ pub fn eval_reader(toks: &[&str]) -> String {
                                 return "slice-outside-message".into();
                             }
                         }
-                        show_e(&r, |b| format!("B:{}", to_hex(b)))
+                        let out = show_e(&r, |b| format!("B:{}", to_hex(b)));
+                        // purity oracle (C10): a fresh reader over the same message must agree
+                        let fresh = MessageReader::new(buf).unwrap();
+                        let out2 = show_e(&fresh.record_data_bytes_at(m), |b| format!("B:{}", to_hex(b)));
+                        if out != out2 { format!("IMPURE!{}!={}", out, out2) } else { out }
                     }
                     None => "nomarker".into(),
                 },
@@ -365,13 +412,27 @@ pub fn eval_reader(toks: &[&str]) -> String {
                     Some(m) => with_rtype!(
                         *ty,
                         D,
-                        show_e(&mr.record_data_at::<D>(m), |d| format!("D:{}", d.show())),
+                        {
+                            let out = show_e(&mr.record_data_at::<D>(m), |d| format!("D:{}", d.show()));
+                            let fresh = MessageReader::new(buf).unwrap();
+                            let out2 = show_e(&fresh.record_data_at::<D>(m), |d| format!("D:{}", d.show()));
+                            if out != out2 { format!("IMPURE!{}!={}", out, out2) } else { out }
+                        },
                         "nomarker".into()
                     ),
                     None => "nomarker".into(),
                 },
                 ["nra", i] => match i.parse::<usize>().ok().and_then(|i| markers.get(i)) {
-                    Some(m) => format!("R:{}", show_name_ref(&mr.name_ref_at(m))),
+                    Some(m) => {
+                        let out = format!("R:{}", show_name_ref(&mr.name_ref_at(m)));
+                        let fresh = MessageReader::new(buf).unwrap();
+                        let out2 = format!("R:{}", show_name_ref(&fresh.name_ref_at(m)));
+                        if out != out2 { format!("IMPURE!{}!={}", out, out2) } else { out }
+                    }
+                    None => "nomarker".into(),
+                },
+                ["opx", i] => match i.parse::<usize>().ok().and_then(|i| markers.get(i)) {
+                    Some(m) => show_e(&mr.opt_record(m), |o| format!("O:{}:{}:{}", o.udp_payload_size(), o.rcode_extension(), o.version())),
                     None => "nomarker".into(),
                 },
                 ["skx", i] => match i.parse::<usize>().ok().and_then(|i| markers.get(i)) {
@@ -711,6 +772,39 @@ pub fn gen_reader(r: &mut Rng, _i: u64) -> String {
     format!("reader {} {}", to_hex(&buf), ops.join(" "))
 }
 
+/// stream `xmark`: markers taken from message A, used on a reader over message B (often much shorter)
+pub fn gen_xmark(r: &mut Rng, _i: u64) -> String {
+    let (a, _, _) = gen_message_bytes(r);
+    let b: Vec<u8> = match r.below(4) {
+        0 => vec![0u8; 12],
+        1 => {
+            let (mut b, _, _) = gen_message_bytes(r);
+            let n = r.below(b.len() as u64 + 1) as usize;
+            b.truncate(n);
+            b
+        }
+        2 => a[..a.len().min(12 + r.below(20) as usize)].to_vec(),
+        _ => gen_message_bytes(r).0,
+    };
+    let n_ops = r.range(1, 12);
+    let mut ops: Vec<String> = vec!["hd".into()];
+    for _ in 0..n_ops {
+        let i = r.below(8);
+        let t = type_name(*r.pick(&ALL_TYPES));
+        ops.push(match r.below(10) {
+            0 | 1 => format!("dba:{}", i),
+            2 | 3 => format!("dta:{}:{}", i, t),
+            4 => format!("dta:{}:{}", i, *r.pick(&["NULL", "TXT", "A"])),
+            5 => format!("nra:{}", i),
+            6 => format!("skx:{}", i),
+            7 => format!("dbx:{}", i),
+            8 => format!("dtx:{}:{}", i, t),
+            _ => r.pick(&G1).to_string(),
+        });
+    }
+    format!("xmark {} {} {}", to_hex(&a), to_hex(&b), ops.join(" "))
+}
+
 /// arbitrary call orders (no protocol): any op at any time, G2 calls with stale markers
 pub fn gen_readerx(r: &mut Rng, _i: u64) -> String {
     let (buf, _m, _layout) = gen_message_bytes(r);
@@ -729,7 +823,7 @@ pub fn gen_readerx(r: &mut Rng, _i: u64) -> String {
             10 => "sk".into(),
             11 => "db".into(),
             12 => format!("dt:{}", t),
-            13 => "op".into(),
+            13 => if r.chance(1, 2) { "op".into() } else { format!("opx:{}", i) },
             14 => format!("seek:{}", r.below(3)),
             15 => "cq".into(),
             16 => "cr".into(),
